@@ -288,6 +288,172 @@ def relogin_items():
             for v in RELOGIN_VERBS]
 
 
+# -- a pipelined CWD while the path checks of the previous command are suspended in the backend ---------------------
+PTREE = {"pub": {"f": b"pubf", "sub": {"g": b"pg"}, "e": {}},
+         "priv": {"f": b"PRIVATE-F", "sub": {"g": b"PRIVATE-G"}, "secret": b"S", "e": {}}}
+PTABLES = {
+    "none": [],
+    "priv-none": [("/priv", False, False)],
+    "priv-ro": [("/priv", True, False)],
+    "priv-writeonly": [("/priv", False, True)],
+    "pub-ro": [("/pub", True, False)],
+    "privf-none": [("/priv/f", False, False), ("/priv/secret", False, False)],
+    "privsub-none-priv-ro": [("/priv", True, False), ("/priv/sub", False, False)],
+}
+PVERBS = {"RETR": "f", "MLST": "f", "LIST": "", "MLSD": "", "DELE": "f", "MKD": "n", "RMD": "e", "STOR": "f", "APPE": "f",
+          "RNFR": "f", "CWD": "sub"}
+
+
+def _perm(table, path):
+    best, depth = (True, True), -1
+    for p, r, w in table:
+        if path == p or p == "/" or path.startswith(p.rstrip("/") + "/"):
+            d = 0 if p == "/" else p.count("/")
+            if d > depth:
+                best, depth = (r, w), d
+    return best
+
+
+def run_pipelined_cwd(case, chooser):
+    """commands are concurrent tasks in the server: whatever the order in which the backend answers, a request is
+    carried out on the location it was authorised for - judged by its effects: the tree changes only where writing
+    is allowed, and nothing is revealed about a location that is not readable"""
+    from vf import backends
+    tname, verb, cwd1, cwd2, mode = case["table"], case["verb"], case["cwd1"], case["cwd2"], case["mode"]
+    table = PTABLES[tname]
+    conf = Conf([M.UserSpec(None, perms=table)], PTREE)
+    spy = backends.SpyControl()
+    if mode == "jobs":
+        spy.op_job = {"exists", "is_file", "is_dir", "stat"}
+    else:
+        spy.delay, spy.delay_ops = 0.125, {mode}
+    rig = conf.new_rig(chooser=chooser, spy=spy)
+    problems = []
+    try:
+        chooser.active = False
+        w = rig.world
+        spy.armed = False
+        rig.ev(0, "@connect")
+        rig.ev(0, "USER anonymous")
+        arg = PVERBS[verb]
+        transfer = verb in ("RETR", "LIST", "MLSD", "STOR", "APPE")
+        if transfer:
+            rig.ev(0, "EPSV")
+            rig.ev(0, "@data")
+        # enter cwd1 with the checks switched off (the start state is not what is examined)
+        from vf.conform import connection_of
+        import pathlib
+        c = connection_of(rig, 0)
+        c.current_directory = pathlib.PurePosixPath(cwd1)
+        before = rig.snapshot()
+        spy.armed = True
+        # white box: the virtual paths the permission lookups were made for
+        lookups = []
+        try:
+            user = c.user
+            orig_gp = user.get_permissions
+
+            async def logged_gp(path):
+                lookups.append(str(path))
+                return await orig_gp(path)
+            user.get_permissions = logged_gp
+        except Exception:
+            lookups = None
+        s0 = rig.sessions[0]
+        lines = [f"{verb} {arg}".rstrip(), "CWD " + cwd2]
+        if verb == "RNFR":
+            lines = [f"RNFR {arg}", "RNTO moved", "CWD " + cwd2]
+            lines = [lines[0], lines[2], lines[1]]          # the CWD sits between RNFR and RNTO
+        chooser.active = True
+        s0.send(("\r\n".join(lines) + "\r\n").encode())
+        w.settle(5)
+        if verb in ("STOR", "APPE") and s0.data is not None:
+            rig.ev(0, "@dsend NEW")
+            rig.ev(0, "@dclose")
+        chooser.active = False
+        w.settle(5)
+        rig.collect()
+        codes = [cd for _, r in s0.transcript for cd, _ in r]
+        text = " ".join(" ".join(ls) for _, r in s0.transcript[-4:] for _, ls in r)
+        after = rig.snapshot()
+        for pth in sorted(set(before) | set(after)):
+            if before.get(pth, "<absent>") != after.get(pth, "<absent>"):
+                if not _perm(table, pth)[1]:
+                    problems.append({"kind": "tree-changed-where-writing-is-denied", "path": pth, "sent": lines,
+                                     "before": repr(before.get(pth, "<absent>")), "after": repr(after.get(pth, "<absent>"))})
+        got = s0.data.received if s0.data is not None else b""
+        secrets = []
+        if not _perm(table, "/priv")[0]:
+            secrets = [b"PRIVATE", b"secret", b"Size=9"]
+        elif not _perm(table, "/priv/f")[0]:
+            # a listing of the readable parent legitimately shows the entry; its content, or a stat of the entry
+            # itself, does not
+            secrets = [b"PRIVATE-F"] + ([b"Size=9"] if verb == "MLST" else [])
+        for sec in secrets:
+            if sec in got or sec.decode() in text:
+                problems.append({"kind": "unreadable-location-revealed", "what": sec.decode(), "sent": lines,
+                                 "data": got[:80].decode("latin-1"), "replies": text[-200:]})
+                break
+        if s0.closed():
+            problems.append({"kind": "session-ended", "sent": lines, "codes": codes})
+        # C02: "the virtual path the server uses for permission lookup is the location actually addressed"
+        if lookups is not None:
+            for op, pth in spy.calls:
+                if op in ("unlink", "mkdir", "rmdir", "_open") and pth not in lookups:
+                    problems.append({"kind": "operated-on-a-location-other-than-the-one-looked-up", "op": op,
+                                     "operated": pth, "looked_up": lookups, "sent": lines})
+                    break
+                if op == "rename":
+                    a_, _, b_ = pth.partition(" -> ")
+                    if a_ not in lookups or b_ not in lookups:
+                        problems.append({"kind": "operated-on-a-location-other-than-the-one-looked-up", "op": op,
+                                         "operated": pth, "looked_up": lookups, "sent": lines})
+                        break
+        return {"problems": problems, "events": w.net.n_events, "trace": report.fp(w.net.trace),
+                "outcome": report.fp([codes[-3:], sorted(after) == sorted(before)])}
+    finally:
+        rig.close()
+
+
+def pipelined_cwd_work(item):
+    from vf.explore import explore
+    from vf.simloop import ReplayDivergence
+    case, bound = item
+    part = report.Partial()
+    kinds = ["order", "early"]
+    try:
+        for ch, res in explore(lambda c: run_pipelined_cwd(case, c), bound, kinds=kinds, max_exec=3000):
+            if ch is None:
+                part.caps.append({"pipelined-cwd": case, "cap": 3000})
+                break
+            part.evaluations += 1
+            part.traces += 1
+            part.transitions += res["events"]
+            part.states.add(res["trace"])
+            part.nontrivial.add(res["trace"])
+            part.outcomes[res["outcome"]] += 1
+            part.counters[f"pipelined_cwd_exec_dev{ch.deviations}"] += 1
+            only = case.get("only_kind")
+            for p in [q for q in res["problems"] if only is None or q["kind"] == only][:1]:
+                part.violation({"kind": p["kind"], "verb": case["verb"], "table": case["table"], "pipelined_cwd": True},
+                               {"problem": p, "case": case}, replay={"pipelined_cwd": case, "choices": ch.choices,
+                                                                      "kinds": kinds})
+    except ReplayDivergence as exc:
+        part.infra.append(f"replay divergence in pipelined cwd {case}: {exc}")
+    return part
+
+
+def pipelined_cwd_items(tier):
+    items = []
+    for tname in PTABLES:
+        for verb in PVERBS:
+            for cwd1, cwd2 in (("/pub", "/priv"), ("/priv", "/pub")):
+                for mode in ("jobs", "exists", "is_file", "is_dir", "stat"):
+                    case = {"table": tname, "verb": verb, "cwd1": cwd1, "cwd2": cwd2, "mode": mode}
+                    items.append((case, (1 if tier == "quick" else 2) if mode == "jobs" else 0))
+    return items
+
+
 def wire_items(tier):
     items = []
     for tname in WTABLES:
@@ -305,7 +471,8 @@ def wire_items(tier):
 
 def run(tier, seed, t0):
     parts = report.pmap(func_work, func_items(tier)) + report.pmap(wire_case, wire_items(tier)) + \
-        report.pmap(late_case, late_items()) + report.pmap(relogin_case, relogin_items())
+        report.pmap(late_case, late_items()) + report.pmap(relogin_case, relogin_items()) + \
+        report.pmap(pipelined_cwd_work, pipelined_cwd_items(tier))
     part = report.merge_all(parts)
     bounds = {"function": {"entries": len(ENTRIES), "tables": "all ordered tables of <= 3 entries (with duplicates) over 6 paths x 4 flag combinations",
                            "queries": "all paths of depth <= %d over {a,b,c}" % (3 if tier == "quick" else 4)},
@@ -313,6 +480,10 @@ def run(tier, seed, t0):
                        "alias_spellings": 8},
               "relogin": {"table_pairs": list(RELOGIN_PAIRS), "touch": RELOGIN_TOUCH, "verbs": RELOGIN_VERBS,
                           "users": "alice (password) and guest (no password), either first"},
+              "pipelined_cwd": {"tables": list(PTABLES), "verbs": list(PVERBS), "backend": "path checks suspend: executor "
+                                "jobs completed in every order with <= %d deviations, or one slow operation kind"
+                                % (1 if tier == "quick" else 2),
+                                "oracle": "effects: tree changes only where writable, nothing revealed of unreadable places"},
               "late_data": {"tables": list(LATE_TABLES), "verbs": ["RETR", "STOR", "APPE", "LIST", "MLSD"],
                             "what": "verb before the data connection, CWD to a differently-permitted directory while "
                                     "the server waits, then the data connection"}}
@@ -329,6 +500,11 @@ def run(tier, seed, t0):
 def replay(path):
     data = json.loads(open(path).read())
     rp = data["replay"]
+    if rp.get("pipelined_cwd"):
+        from vf.simloop import Chooser
+        res = run_pipelined_cwd(rp["pipelined_cwd"], Chooser(rp["choices"], rp["kinds"]))
+        print(json.dumps(res["problems"], indent=1, default=repr))
+        return 1 if res["problems"] else 0
     if rp.get("relogin"):
         part = relogin_case(tuple(rp["relogin"]))
     elif rp.get("late"):
